@@ -69,3 +69,14 @@ claim("C13", "proof",
       "Coq proof (counting invariant over arbitrary operation lists, loop invariant of the destructor) + differential refcount correspondence",
       "DESIGN.md section 6, C13")
 HOOK_COMMITS.append("a30cf9a")
+
+claim("C12", "proof",
+      "Partial: the floating-point environment lives in hardware state and Boost's rounding policies, which are observed, "
+      "not modelled from source.  Coq theorem: if every primitive of the table restores the environment then every call "
+      "tree (tapes, batches, renders, solver iterations, oracle nesting) and every history does.  The per-primitive table "
+      "is validated exhaustively on every run: 26 opcodes x 10 evaluator entry kinds x input classes x 4 rounding modes "
+      "and 13 entry points, comparing fegetround / MXCSR control bits / x87 control word before and after.",
+      "Trusted: Coq kernel; the harness's reading of the FP environment; the enumeration of primitives (opcodes x kinds) "
+      "is complete only w.r.t. the opcode table (regenerated) and the entry points listed.",
+      "Coq proof (induction over call trees / histories) + exhaustive per-primitive fault enumeration on the implementation",
+      "DESIGN.md section 6, C12")
